@@ -959,23 +959,57 @@ def compare_factory(out: Outcome, case: dict, ans: dict) -> None:
 # ------------------------------------------------------------------ raw-store reads: implementation side
 
 
-def export_store(model) -> list[dict]:
-    """Flat pre-order export of every fragment for the Lean `Store`."""
-    frags = []
-    for name, f in model._loader.trees.items():
-        idx = {}
-        elems = []
-        for i, e in enumerate(f.root.iter()):
+def export_sem(model) -> tuple[list[dict], list]:
+    """Flat document-order export of the semantic fragments for the Lean `State.sem` (+ the lxml elements)."""
+    sem, elems = [], []
+    for _name, f in model._loader.trees.items():
+        if f.fragment_type.name != "SEMANTIC":
+            continue
+        for e in f.root.iter():
             if not isinstance(e.tag, str):
                 continue
-            idx[e] = len(elems)
-            p = e.getparent()
-            attrs = [[k.split("}")[-1] if k.startswith("{") else k, v] for k, v in e.attrib.items()]
-            elems.append({"tag": e.tag.split("}")[-1], "id": e.get("id") or "", "xt": e.get(XSI) or "",
-                          "attrs": attrs, "parent": idx[p] if p is not None and p in idx else None})
-            del i
-        frags.append({"name": str(name).replace("\0", "~"), "kind": f.fragment_type.name.lower(), "elems": elems})
-    return frags
+            attrs = [[k.split("}")[-1], v] for k, v in e.attrib.items()]
+            sem.append({"id": e.get("id") or "", "xt": e.get(XSI) or "", "attrs": attrs})
+            elems.append(e)
+    return sem, elems
+
+
+def store_case(ctx: Ctx, model, label: str) -> tuple[dict, list] | None:
+    """A random read history on the exported store + the answers computed directly on lxml."""
+    rng = ctx.rng
+    sem, elems = export_sem(model)
+    if not sem:
+        return None
+    ids = [e["id"] for e in sem if e["id"]]
+    xts = sorted({e["xt"] for e in sem if e["xt"]})
+    keys = sorted({k for e in sem for k, _ in e["attrs"]})
+    first = {}
+    for d, e in zip(sem, elems):
+        first.setdefault(d["id"], e)
+    ops, want = [], []
+    for _ in range(ctx.pick(120, 600)):
+        o = rng.choice(["attr", "attr", "has", "dump", "search", "refsTo"])
+        u = rng.choice(ids) if rng.random() < 0.9 else "no-such-id"
+        if o == "attr":
+            k = rng.choice(keys)
+            ops.append({"o": o, "u": u, "k": k})
+            e = first.get(u)
+            want.append(None if e is None else next((v for kk, v in e.attrib.items() if kk.split("}")[-1] == k), None))
+        elif o == "has":
+            ops.append({"o": o, "u": u})
+            want.append(u in first)
+        elif o == "dump":
+            ops.append({"o": o, "u": u})
+            e = first.get(u)
+            want.append(None if e is None else [[kk.split("}")[-1], v] for kk, v in e.attrib.items()])
+        elif o == "search":
+            sel = rng.sample(xts, rng.randint(0, min(3, len(xts))))
+            ops.append({"o": o, "xts": sel})
+            want.append([(e.get("id") or "") for e in elems if not sel or (e.get(XSI) or "") in sel])
+        else:
+            ops.append({"o": o, "u": u})
+            want.append([(e.get("id") or "") for e in elems if any("#" + u in v for v in e.attrib.values())])
+    return {"op": "run", "sem": sem, "ops": ops}, want
 
 
 # ------------------------------------------------------------------ the run
@@ -986,6 +1020,7 @@ def run(ctx: Ctx) -> Outcome:
     out = Outcome(rule=RULE)
     per_model = {}
     fcases: list[dict] = []
+    store_cases: list = []
     sel = MODELS
     only = os.environ.get("C11_MODELS")
     if only:
@@ -1007,6 +1042,10 @@ def run(ctx: Ctx) -> Outcome:
         fc = timed("factory-cases", factory_cases, ctx, model, label, sites)
         fcases += fc
         per_model[label]["factory_sites"] = len(sites)
+        if size == "small" or ctx.thorough:
+            sc = store_case(ctx, model, label)
+            if sc:
+                store_cases.append((label, sc))
         timed("pvmt", run_pvmt, ctx, out, label, model)
         del model
         if size == "small" or ctx.thorough or label == "mm52":
@@ -1023,11 +1062,26 @@ def run(ctx: Ctx) -> Outcome:
             out.find(f"mutates|render|{what}",
                      f"[{c['model']}] rendering diagram {c['site']['diagram']} wrote into the XML of element {c['site']['de']} ({c['site']['type']}) with inputs {c['in']}",
                      {"kind": "factory", "model": c["model"], "site": c["site"], "in": c["in"]})
-    if os.environ.get("VERIF_NO_MODEL") != "1" and reqs:
-        answers = common.model(reqs + pvmt_model_requests(), driver="Reads")
+    for label, (rq, want) in store_cases:
+        for o, w in zip(rq["ops"], want):
+            out.case(("store", label, common.sha(o)), None, True)
+    if os.environ.get("VERIF_NO_MODEL") != "1":
+        preq = pvmt_model_requests()
+        answers = common.model(reqs + preq + [rq for _l, (rq, _w) in store_cases], driver="Reads")
         for c, a in zip(fcases, answers):
             compare_factory(out, c, a)
-        compare_pvmt_model(ctx, out, answers[len(reqs):])
+        compare_pvmt_model(ctx, out, answers[len(reqs):len(reqs) + len(preq)])
+        for (label, (rq, want)), a in zip(store_cases, answers[len(reqs) + len(preq):]):
+            if "ok" not in a:
+                out.disagree("store.run", {"model": label}, "n/a", a)
+                continue
+            if a["ok"]["changed"]:
+                out.disagree("store.run", {"model": label}, "state unchanged", "model state changed")
+            for o, w, mv in zip(rq["ops"], want, a["ok"]["outs"]):
+                out.hit("store:" + o["o"])
+                if mv != w:
+                    out.disagree("store.run", {"model": label, "op": o}, w, mv)
+            out.traces_validated += 1
     out.extra["per_model"] = per_model
     out.extra["formats"] = formats()
     out.extra["factory_cases"] = len(fcases)
